@@ -144,14 +144,17 @@ Theorem c18_unfixed_wedged_half_lock_with_meta : forall (ag : bool) (d d' : pid)
 Proof. exact unfixed_wedged_half_lock_with_meta. Qed.
 Print Assumptions c18_unfixed_wedged_half_lock_with_meta.
 
-(* ---- finding S24 (open): a meta.json without a lock keeps every CLIENT loop away from its spawn branch, forever *)
-Theorem c18_client_wedged_meta_only : forall (ag : bool) (d' : pid) (ps : list proc) (es : list event),
-  (forall q, In q ps -> q = fresh (p_pid q) DClient) ->
-  (forall q, In q (s_procs (run ag (init LAbsent (MRec d') ps) es)) -> p_pc q <> LockExists)
-  /\ s_lock (run ag (init LAbsent (MRec d') ps) es) = LAbsent
-  /\ s_meta (run ag (init LAbsent (MRec d') ps) es) = MRec d'.
-Proof. exact client_wedged_meta_only. Qed.
-Print Assumptions c18_client_wedged_meta_only.
+(* ---- finding S24 (fixed in /repo): a meta.json of a dead pid WITHOUT a lock.json used to keep every client loop away from
+   its spawn branch forever.  Now the client loop, scheduled alone among any idle processes, is after 3 steps at the
+   "lock.json exists?" test of its meta branch (pc LockExistsM) with the lock absent — the point from which the code spawns
+   an authority — and nothing was changed on disk *)
+Theorem c18_client_reaches_spawn : forall (d' : pid) (ps : list proc) (i : nat) (me : pid),
+  nth_error ps i = Some (fresh me DClient) -> pid_alive ps d' = false ->
+  nth_error (s_procs (run true (init LAbsent (MRec d') ps) (repeat (Step i 0) 3))) i = Some (cli me (LockExistsM d') 0)
+  /\ s_lock (run true (init LAbsent (MRec d') ps) (repeat (Step i 0) 3)) = LAbsent
+  /\ s_meta (run true (init LAbsent (MRec d') ps) (repeat (Step i 0) 3)) = MRec d'.
+Proof. exact client_reaches_spawn. Qed.
+Print Assumptions c18_client_reaches_spawn.
 
 (* ---- the full statements, and that the faithful model REFUTES them (S13) *)
 Definition c18_mutex_all_schedules : Prop := mutex_all_schedules_full.
